@@ -1,7 +1,8 @@
 (* C11 — the Gibbs-state computation returns the exact reduced thermal state. *)
-From Coq Require Import ZArith List Bool Arith Lia.
+From Coq Require Import ZArith List Bool Arith Lia Reals.
+From Coquelicot Require Import Coquelicot.
 From OQ Require Import Lib.RingSum Lib.Mat Model.PathSum Model.Shapes Model.History
-  Proofs.PathSumSpec Proofs.PathSumTrace Proofs.PathSumFree Proofs.ShapesSpec Proofs.HistorySpec.
+  Proofs.PathSumSpec Proofs.PathSumTrace Proofs.PathSumFree Proofs.ShapesSpec Proofs.HistorySpec Proofs.MatsubaraSpec.
 Import ListNotations.
 
 (* The imaginary-time network of the Gibbs computation is the same path sum as the real-time one
@@ -53,6 +54,18 @@ Theorem cells_sum_independent_of_slicing :
   forall (K : Ring) (G : nat -> K) (n : nat), sumn n (row_full K G) = rsub (G n) (G 0%nat).
 Proof. exact tiling_full. Qed.
 Print Assumptions cells_sum_independent_of_slicing.
+
+(* (2b) ... and in the continuum: for a kernel symmetric about beta/2 (K(beta - u) = K(u), what a thermal bath gives)
+   the double integral over the whole imaginary-time triangle is beta/2 times the single integral of K — with
+   int_0^beta K = 2 lambda the total of all Matsubara cells is lambda/T.  This is the identity the check observes on
+   correlation_2d_integral(1/T, 0, 'upper-triangle', matsubara=True) (it exposed the defect repaired by 42443af). *)
+Theorem matsubara_total :
+  forall (K : R -> R) (beta L : R),
+    (forall u, continuous K u) -> (forall u, K (beta - u)%R = K u) ->
+    is_RInt K 0 beta L ->
+    is_RInt (fun u => ((beta - u) * K u)%R) 0 beta (beta / 2 * L)%R.
+Proof. exact MatsubaraSpec.matsubara_total. Qed.
+Print Assumptions matsubara_total.
 
 (* (3) repeating the computation on the same object changes nothing *)
 Theorem gibbs_idempotent :
